@@ -32,18 +32,21 @@ register("C03", "exploration",
                           "PidRefsAlreadyExistsError) counts as the rejection"],
          30, 420,
          [SeqEnumPart("C03", "obj", "seq-enum", focus=["rebind-rejected"]),
-          SeqPart("C03", focus=["rebind-rejected"], weight=3.0)])
+          SeqPart("C03", focus=["rebind-rejected"], weight=2.5),
+          ConcPart("C03", "obj", name="conc-obj", weight=1.0)])
 
 register("C04", "exploration",
          SEQ_RULE + "; focus = a successful delete_object or a delete_if_invalid_object in a history with shared content",
          COMMON_ASSUME, 30, 420,
          [SeqEnumPart("C04", "obj", "seq-enum", focus=["delete-ok", "div"]),
-          SeqPart("C04", focus=["delete-ok", "div"], weight=3.0)])
+          SeqPart("C04", focus=["delete-ok", "div"], weight=2.5),
+          ConcPart("C04", "obj", name="conc-obj", weight=1.0)])
 
 register("C05", "exploration",
          SEQ_RULE + "; focus = any reference-changing call (tag/delete/store with pid)",
          COMMON_ASSUME, 30, 420,
-         [SeqEnumPart("C05", "obj", "seq-enum"), SeqPart("C05", focus=["op:tag", "delete-ok", "op:store"], weight=3.0)])
+         [SeqEnumPart("C05", "obj", "seq-enum"), SeqPart("C05", focus=["op:tag", "delete-ok", "op:store"], weight=2.5),
+          ConcPart("C05", "obj", name="conc-obj", weight=1.0)])
 
 register("C06", "exploration",
          SEQ_RULE + "; focus = a store_object with validation data or a delete_if_invalid_object",
@@ -55,7 +58,8 @@ register("C06", "exploration",
 register("C11", "exploration",
          SEQ_RULE + "; focus = a metadata call",
          COMMON_ASSUME, 30, 420,
-         [SeqEnumPart("C11", "meta", "seq-enum", focus=["meta"]), SeqPart("C11", focus=["meta"], weight=3.0)])
+         [SeqEnumPart("C11", "meta", "seq-enum", focus=["meta"]), SeqPart("C11", focus=["meta"], weight=2.5),
+          ConcPart("C11", "metax", name="conc-collide", weight=1.0)])
 
 register("C16", "exploration",
          "three parts: (seq-mp) " + SEQ_RULE + "; every history runs in multiprocessing mode (USE_MULTIPROCESSING=True, simulated "
@@ -82,7 +86,8 @@ register("C07", "exploration", CONC_RULE,
 register("C12", "exploration", CONC_RULE,
          COMMON_ASSUME + ["a racing reader may report not-found as ValueError or FileNotFoundError"],
          40, 480,
-         [ConcPairsPart("C12", "meta", "conc-pairs", weight=1.0), ConcPart("C12", "meta", weight=2.0)])
+         [ConcPairsPart("C12", "meta", "conc-pairs", weight=1.0), ConcPart("C12", "meta", weight=2.0),
+          ConcPart("C12", "metax", name="conc-collide", weight=0.5)])
 
 register("C08", "exploration",
          CONC_RULE + "; C08 looks only at: scheduler never ends with a blocked unfinished task (deadlock) nor hits "
